@@ -457,6 +457,11 @@ pub fn run(ctx: &Ctx) -> i32 {
             };
             let err_pct = r.below(51);
             let alpha = crate::gen::alphabet(&mut r);
+            // every other sequence uses keys of up to ~130 bytes whose lengths cross 8/16/32/64-byte block boundaries
+            let long_keys = (i / 4) % 2 == 1;
+            if long_keys {
+                ev.count("sequences:random-with-long-keys");
+            }
             let mut cur: Vec<u8> = vec![];
             let mut seq: Vec<(Vec<u8>, u64)> = vec![];
             for c in 0..len {
@@ -465,6 +470,18 @@ pub fn run(ctx: &Ctx) -> i32 {
                     match r.below(3) {
                         0 => cur.clone(),
                         1 => cur[..r.usize(cur.len() + 1)].to_vec(),
+                        2 if long_keys && !cur.is_empty() => {
+                            // equal to the current key up to a random position, smaller there, with a tail of arbitrary length
+                            let cut = r.usize(cur.len());
+                            let mut k = cur[..cut].to_vec();
+                            if cur[cut] > 0 {
+                                k.push(cur[cut] - 1 - r.below(cur[cut] as u64) as u8);
+                                for _ in 0..r.usize(40) {
+                                    k.push(*r.pick(&alpha));
+                                }
+                            }
+                            k
+                        }
                         _ => {
                             let l = r.usize(4);
                             r.bytes(l, &alpha)
@@ -473,7 +490,12 @@ pub fn run(ctx: &Ctx) -> i32 {
                 } else {
                     // usually greater: extend or bump
                     let mut k = cur.clone();
-                    if k.is_empty() || r.chance(1, 2) && k.len() < 12 {
+                    if long_keys && r.chance(1, 3) && k.len() < 90 {
+                        // jump over several 8/16/32-byte block boundaries at once
+                        for _ in 0..1 + r.usize(40) {
+                            k.push(*r.pick(&alpha));
+                        }
+                    } else if k.is_empty() || r.chance(1, 2) && k.len() < if long_keys { 90 } else { 12 } {
                         k.push(*r.pick(&alpha));
                     } else {
                         let cut = r.usize(k.len());
@@ -520,7 +542,7 @@ pub fn run(ctx: &Ctx) -> i32 {
             level: "exploration",
             rule: "one evaluation = one builder call (insert/add, or one bulk call) whose result - accept / DuplicateKey{got} / OutOfOrder{previous,got}, payloads included - is compared with a sequential model (last accepted key), bytes_written must not move on a rejected call, and the finished FST must hold exactly the accepted history; every sequence of length 2..5 is additionally replayed on ONE builder under EVERY segmentation into single inserts and bulk calls (extend_iter / extend_stream), so calls that follow a bulk call which stopped at a rejection are judged against the key that was really accepted last; sequences: ALL 55987 (thorough: 335923) call sequences of length <=6 (thorough <=7) over {\"\",a,ab,b,ba,c} x {MapBuilder, SetBuilder, raw insert-only, raw add-only} step by step, each also fed to 10 bulk front ends (extend_iter, extend_stream, from_iter, from_iter_map/set) which must stop at the first rejected item with that item's error and (extend_*) keep the items before it; a sequence of 70000-byte keys (payloads must carry the complete keys); from_iter/extend_iter on lazy iterators claiming usize::MAX items; random sequences of 10..10^4 calls with 0-50% offending calls; non-trivial = every call; distinct = (sequence, front end, call index), distinct by construction",
             assumptions: vec!["mixing add and insert on one raw builder is neither a map nor a set builder and is not judged".into()],
-            floors: vec![("calls:accepted", 1000), ("calls:rejected-duplicate", 1000), ("calls:rejected-out-of-order", 1000), ("bulk-calls:stopped-at-first-rejection", 1000), ("session-calls:bulk-stopped-at-a-rejection-and-builder-used-on", 1000), ("sequences:exhaustive", 55_987), ("sequences:70000-byte-keys", 1), ("bulk-calls:astronomical-size-hint", 1)],
+            floors: vec![("calls:accepted", 1000), ("calls:rejected-duplicate", 1000), ("calls:rejected-out-of-order", 1000), ("bulk-calls:stopped-at-first-rejection", 1000), ("session-calls:bulk-stopped-at-a-rejection-and-builder-used-on", 1000), ("sequences:random-with-long-keys", 100), ("sequences:exhaustive", 55_987), ("sequences:70000-byte-keys", 1), ("bulk-calls:astronomical-size-hint", 1)],
             exhaustive: Some(true),
         },
     )
